@@ -75,7 +75,7 @@ def run(chk):
     d.mkdir(parents=True, exist_ok=True)
     for f in d.glob("*"):
         f.unlink()
-    n = 1100 if quick else 6000
+    n = 1700 if quick else 7000
     cfg = {"seed": chk.seed * 7919 + 1, "n": n, "outdir": str(d), "prefix": "g", "per_shard": 175 if quick else 250}
     rc, out, err = chk.impl("c07_gen.py", input=json.dumps(cfg), timeout=900)
     if rc != 0:
